@@ -202,8 +202,8 @@ RECORD_TEXT = {
     "INPUT": "$INPUT ID TIME AMT WGT APGR DV\n",
     "DATA": "$DATA pheno.dta IGNORE=@\n",
     "SUBROUTINES": "$SUBROUTINE ADVAN1 TRANS2\n",
-    "PK": "$PK\nCL=THETA(1)*EXP(ETA(1))\nV=THETA(2)*EXP(ETA(2))\nS1=V\n",
-    "PRED": "$PRED\nCL=THETA(1)*EXP(ETA(1))\nV=THETA(2)*EXP(ETA(2))\nY=CL+V*TIME+EPS(1){eps2}\n",
+    "PK": "$PK\nCL=THETA(1)*EXP(ETA(1))\nV=THETA(2)*EXP(ETA(2))\n{etas}S1=V\n",
+    "PRED": "$PRED\nCL=THETA(1)*EXP(ETA(1))\nV=THETA(2)*EXP(ETA(2))\n{etas}Y=CL+V*TIME+EPS(1){eps2}\n",
     "ERROR": "$ERROR\nW=F\nY=F+W*EPS(1){eps2}\n",
     "COVARIANCE": "$COVARIANCE\n",
     "TABLE": "$TABLE ID TIME DV NOPRINT ONEHEADER FILE=sdtab1\n",
@@ -217,6 +217,11 @@ MULTI = {
     "SIGMA": ("$SIGMA 0.01\n", ["$SIGMA 0.01\n", "$SIGMA 0.02\n"]),
     "ESTIMATION": ("$ESTIMATION METHOD=1 INTERACTION MAXEVAL=99\n", ["$ESTIMATION METHOD=1 INTERACTION MAXEVAL=99\n", "$ESTIMATION METHOD=IMP NITER=5\n"]),
 }
+# two records of one kind that each hold several values (a later record must not be rewritten from an earlier one)
+MULTI4 = {
+    "OMEGA": ["$OMEGA 0.03 0.04\n", "$OMEGA 0.05 ; IVA\n 0.06 ; IVB\n"],
+    "SIGMA": ["$SIGMA 0.01 0.02\n", "$SIGMA 0.03 0.04\n"],
+}
 ABBREV = {"$THETA": "$THE", "$OMEGA": "$OME", "$ESTIMATION": "$EST", "$PROBLEM": "$PROB", "$SUBROUTINE": "$SUB", "$COVARIANCE": "$COV"}
 
 
@@ -226,16 +231,20 @@ def render_layout(kinds, rng):
     count = {k: kinds.count(k) for k in set(kinds)}
     seen: dict = {}
     out = []
+    four = {k: count.get(k, 0) > 1 and rng.random() < 0.5 for k in ("OMEGA", "SIGMA")}
     eps2 = "+EPS(2)" if count.get("SIGMA", 0) > 1 else ""
+    if four["SIGMA"]:
+        eps2 += "+EPS(3)+EPS(4)"
+    etas = "E3=ETA(3)\nE4=ETA(4)\n" if four["OMEGA"] else ""
     for k in kinds:
         if k in MULTI:
             i = seen.get(k, 0)
             seen[k] = i + 1
-            t = MULTI[k][0] if count[k] == 1 else MULTI[k][1][i]
+            t = MULTI[k][0] if count[k] == 1 else (MULTI4[k][i] if four.get(k) else MULTI[k][1][i])
             if k == "THETA" and count[k] == 1 and rng.random() < 0.12:
                 t = MULTI["THETA_INF"][0]
         else:
-            t = RECORD_TEXT[k].replace("{eps2}", eps2)
+            t = RECORD_TEXT[k].replace("{eps2}", eps2).replace("{etas}", etas)
         if k not in ("PRETEXT",):
             r = rng.random()
             if r < 0.15:
@@ -560,8 +569,16 @@ def _work(arg):
         return [("machinery", {}, str(ex), None)]
 
 
+def _own_known(known, prop):
+    """entries of this property come from its fragment only (a repaired entry may linger in the merged list)"""
+    frag = json.loads((core.VERIF / "known_findings.d" / f"{prop}.json").read_text())
+    ids = {x["id"] for x in frag.get("findings", [])}
+    return [k for k in known if k.get("property") != prop or k.get("id") in ids]
+
+
 def main(tier: str, seed: int) -> int:
     v = core.Verdict("C03", tier, seed)
+    v.known = _own_known(v.known, "C03")
     v.assumptions = [
         "acceptance is whatever NMTranParser and the record classes accept: a text that raises while parsing is not judged",
         "generated layouts are rendered into one small ADVAN1 / $PRED model; comments, abbreviations and leading blanks are seeded decoration",
